@@ -2841,6 +2841,13 @@ def emit(ast: Program) -> str:
             if key not in pin_mode_emitted:
                 pin_mode_emitted.add(key)
                 setup_lines.append(f"  pinMode({pin_expr}, {node.mode});")
+            if node.name not in button_init_emitted:
+                # take the initial sample in setup() so a button held at boot is not a click
+                setup_lines.append(
+                    f"  {prev_var} = (digitalRead({pin_expr}) == HIGH);"
+                )
+                setup_lines.append(f"  {value_var} = {prev_var};")
+                button_init_emitted.add(node.name)
             continue
 
         if isinstance(node, ServoDecl):
